@@ -174,8 +174,7 @@ def run(ctx):
                   "kernel.reverse() pairing changed", f.qname, "reverse pairing")
     # ---- P5 step only while unbalanced
     ctx.rule("P5", "steps are taken only while the micro-op's ports are unbalanced")
-    g = [n for n in ul.body if isinstance(n, ast.If) and U(n.test) == C.CT("len(set(port_sums)) > 1")]
-    ctx.check(len(g) == 1 and C.in_subtree(sl, g[0]), "P5", "balancing only if the ports' totals differ", f.where(ul),
+    ctx.check(C.holds_at(sl, "len(set(port_sums)) > 1", stop=ul), "P5", "balancing only if the ports' totals differ", f.where(ul),
               "the step loop is not guarded by `len(set(port_sums)) > 1`", f.qname, "unbalanced guard")
     one = [n for n in sl.body if isinstance(n, ast.If) and U(n.test) == "len(instr_ports) == 1" and any(isinstance(x, ast.Break) for x in n.body)]
     ctx.check(bool(one) and one[0] is sl.body[0], "P5", "stop when only one port is left", f.where(sl),
